@@ -27,7 +27,7 @@ def sh(cmd, **kw):
 
 def main():
     out, i, props = sys.argv[1], sys.argv[2], sys.argv[3:]
-    tag = f"{props[0]}-{i}"
+    tag = f"{props[0]}-{int(i) + int(os.environ.get('SEED_ID_OFFSET', '0'))}"
     scr = f"/tmp/seedtest-{tag}"
     tb = f"/tmp/seedtest-{tag}-tb"
     patch = os.path.join(out, f"patch{i}.diff")
